@@ -205,6 +205,9 @@ def _init_adjuster(c, st):
 
 
 ROOTS = [
+    's3transfer.upload:UploadSubmissionTask._submit', 's3transfer.upload:UploadSubmissionTask._submit_multipart_request',
+    's3transfer.copies:CopySubmissionTask._submit', 's3transfer.copies:CopySubmissionTask._submit_multipart_request',
+    's3transfer.download:DownloadSubmissionTask._submit', 's3transfer.download:DownloadSubmissionTask._submit_ranged_download_request',
     f'{U}:calculate_num_parts',
     f'{U}:calculate_range_parameter',
     f'{U}:ChunksizeAdjuster.__init__',
